@@ -305,3 +305,11 @@ Proof.
 Qed.
 
 End Cauchy.
+
+Arguments am_zero {R ring0 ring1 add mul sub opp ring_eq Ro Rg} phi {AM}.
+Arguments am_sub {R ring0 ring1 add mul sub opp ring_eq Ro Rg} phi {AM} x y.
+Arguments am_bigsum {R ring0 ring1 add mul sub opp ring_eq Ro Rg} phi {AM} {A} F l.
+Arguments lift_conv [k] {R ring0 ring1 add mul sub opp ring_eq Ro Rg} phi {AM} F G n.
+Arguments lift_one [k] {R ring0 ring1 add mul sub opp ring_eq Ro Rg} phi {AM} _ n _.
+Arguments sord_lift [k] {R ring0 ring1 add mul sub opp ring_eq Ro Rg} phi {AM} [m f] _ n _ _.
+Arguments sZc_lift [k] {R ring0 ring1 add mul sub opp ring_eq Ro Rg} phi {AM} f n _.
